@@ -66,7 +66,7 @@ def check(spec, ctx):
     today, svg, ts, S, tex, tt, T = both(spec, ctx)
     info = tl.check_c07(spec, S, ts, "svg", today)
     try:
-        tl.check_c07(spec, T, tt, "tex", today)
+        tl.check_c07(spec, T, tt, "tex", today, svg_ticks=S["ticks"])
     except Violation as v:
         raise Violation("tikz:" + v.bucket, v.msg)
     classify(spec, info, ctx)
